@@ -36,7 +36,9 @@ type function struct {
 	docs       string
 	function   starlark.Callable
 	oldEnv     starlark.Value
+	oldData    string
 	newEnv     starlark.Value
+	newData    string
 
 	out *lineWriter
 }
@@ -129,9 +131,15 @@ func (f *function) diffEnv() (bool, string, diff.ValueDiff, error) {
 		return false, "target has never been run", nil, nil
 	}
 
+	// Equal encodings decode to equal environments, however deep or cyclic they are.
+	if f.newData == f.oldData {
+		return true, "", nil, nil
+	}
+
 	eq, err := starlark.EqualDepth(f.oldEnv, f.newEnv, 1000)
 	if err != nil {
-		return false, "", nil, fmt.Errorf("comparing function environments: %w", err)
+		// The encodings differ and the environments are too deep or cyclic to compare structurally.
+		return false, "environment changed", nil, nil
 	}
 	if eq {
 		return true, "", nil, nil
@@ -148,7 +156,8 @@ func (f *function) diffEnv() (bool, string, diff.ValueDiff, error) {
 
 	d, err := diff.DiffDepth(f.oldEnv, f.newEnv, 1000)
 	if err != nil {
-		return false, "", nil, fmt.Errorf("diffing environments: %w", err)
+		// As above: the environments differ, but are too deep or cyclic to diff.
+		return false, "environment changed", nil, nil
 	}
 	md, ok := d.(*diff.MappingDiff)
 	if !ok {
@@ -177,11 +186,11 @@ func (f *function) diffEnv() (bool, string, diff.ValueDiff, error) {
 
 func (f *function) upToDate() (bool, string, diff.ValueDiff, error) {
 	// check env
-	newEnv, err := functionEnv(f.function)
+	newEnv, newData, err := functionEnv(f.function)
 	if err != nil {
 		return false, "", nil, fmt.Errorf("computing function environment: %w", err)
 	}
-	f.newEnv = newEnv
+	f.newEnv, f.newData = newEnv, newData
 
 	// if this target always runs, skip the equality check
 	if f.always {
@@ -251,8 +260,8 @@ func (f *function) evaluate() (data string, changed bool, err error) {
 	}
 	b64.Close()
 
-	f.oldEnv = f.newEnv
-	return buf.String(), true, nil
+	f.oldEnv, f.oldData = f.newEnv, buf.String()
+	return f.oldData, true, nil
 }
 
 func (f *function) load() error {
@@ -281,19 +290,22 @@ func (f *function) load() error {
 		if err != nil {
 			return fmt.Errorf("loading prior function environment: %w", err)
 		}
+		f.oldData = info.Data
 	}
 
 	return nil
 }
 
 // functionEnv returns the given function's environment by round-tripping it through the
-// pickler.
-func functionEnv(f starlark.Callable) (starlark.Value, error) {
+// pickler, along with the encoded form of the environment.
+func functionEnv(f starlark.Callable) (starlark.Value, string, error) {
 	var buf bytes.Buffer
 	if err := pickle.NewEncoder(&buf, newEnvPickler()).Encode(f); err != nil {
-		return nil, err
+		return nil, "", err
 	}
-	return pickle.NewDecoder(&buf, pickle.UnpicklerFunc(envUnpickler)).Decode()
+	data := base64.StdEncoding.EncodeToString(buf.Bytes())
+	env, err := pickle.NewDecoder(&buf, pickle.UnpicklerFunc(envUnpickler)).Decode()
+	return env, data, err
 }
 
 // newEnvPickler returns the pickler for a single encoding of a function's environment.
